@@ -195,6 +195,9 @@ def normalise(rng, sk):
     # grid mappings
     gms = sk["gm"][:2]
     cs = coords_of(sk)
+    if ft is not None:
+        # the reader moves a listed coordinate that owns formula terms out of the grid mapping (C01)
+        cs = [c for c in cs if c != ["dim", ft["z"]]]
     if len(gms) == 2 and (not cs or gms[0]["cc"] == gms[1]["cc"]):
         gms = gms[:1]
     if len(gms) == 1:
